@@ -1828,16 +1828,108 @@ theorem pyEqList_trans (l m n : List Atom) (h1 : pyEqList l m = true) (h2 : pyEq
         simp only [pyEqList, Bool.and_eq_true] at h1 h2 ⊢
         exact ⟨Atom.pyEq_trans a b c h1.1 h2.1, ih t u h1.2 h2.2⟩
 
+theorem Elem.pyEq_refl (e : Elem) : e.pyEq e = true := by
+  cases e <;> simp [Elem.pyEq, Atom.pyEq_refl, pyEqList_refl]
+
+theorem Elem.pyEq_symm (a b : Elem) : a.pyEq b = b.pyEq a := by
+  cases a <;> cases b <;> simp [Elem.pyEq, Atom.pyEq_symm, pyEqList_symm]
+
+theorem Elem.pyEq_trans (a b c : Elem) (h1 : a.pyEq b = true) (h2 : b.pyEq c = true) : a.pyEq c = true := by
+  cases a <;> cases b <;> cases c <;> simp [Elem.pyEq] at h1 h2 ⊢
+  · exact Atom.pyEq_trans _ _ _ h1 h2
+  · exact pyEqList_trans _ _ _ h1 h2
+  · exact pyEqList_trans _ _ _ h1 h2
+
+theorem pyEqElems_refl (l : List Elem) : pyEqElems l l = true := by
+  induction l with
+  | nil => rfl
+  | cons a r ih => simp [pyEqElems, Elem.pyEq_refl, ih]
+
+theorem pyEqElems_symm (l m : List Elem) : pyEqElems l m = pyEqElems m l := by
+  induction l generalizing m with
+  | nil => cases m <;> rfl
+  | cons a r ih =>
+    cases m with
+    | nil => rfl
+    | cons b t => simp [pyEqElems, Elem.pyEq_symm a b, ih t]
+
+theorem pyEqElems_trans (l m n : List Elem) (h1 : pyEqElems l m = true) (h2 : pyEqElems m n = true) :
+    pyEqElems l n = true := by
+  induction l generalizing m n with
+  | nil =>
+    cases m with
+    | nil => exact h2
+    | cons b t => simp [pyEqElems] at h1
+  | cons a r ih =>
+    cases m with
+    | nil => simp [pyEqElems] at h1
+    | cons b t =>
+      cases n with
+      | nil => simp [pyEqElems] at h2
+      | cons c u =>
+        simp only [pyEqElems, Bool.and_eq_true] at h1 h2 ⊢
+        exact ⟨Elem.pyEq_trans a b c h1.1 h2.1, ih t u h1.2 h2.2⟩
+
+/-- `dictLe` spelled out: every key of `a` is bound in both, to equal values -/
+theorem dictLe_iff (a b : Dict Atom) :
+    dictLe a b = true ↔ ∀ k ∈ dkeys a, ∃ x y, dget a k = some x ∧ dget b k = some y ∧ x.pyEq y = true := by
+  unfold dictLe
+  rw [List.all_eq_true]
+  constructor
+  · intro h k hk
+    have := h k hk
+    split at this
+    · rename_i x y hx hy; exact ⟨x, y, hx, hy, this⟩
+    · cases this
+  · intro h k hk
+    obtain ⟨x, y, hx, hy, hxy⟩ := h k hk
+    rw [hx, hy]; exact hxy
+
+theorem dictLe_refl (a : Dict Atom) : dictLe a a = true := by
+  rw [dictLe_iff]
+  intro k hk
+  have := (dget_ne_none_iff_mem a k).2 hk
+  cases hx : dget a k with
+  | none => exact absurd hx this
+  | some x => exact ⟨x, x, rfl, rfl, Atom.pyEq_refl x⟩
+
+theorem dictLe_trans (a b c : Dict Atom) (h1 : dictLe a b = true) (h2 : dictLe b c = true) :
+    dictLe a c = true := by
+  rw [dictLe_iff] at h1 h2 ⊢
+  intro k hk
+  obtain ⟨x, y, hx, hy, hxy⟩ := h1 k hk
+  have hkb : k ∈ dkeys b := (dget_ne_none_iff_mem b k).1 (by rw [hy]; simp)
+  obtain ⟨y', z, hy', hz, hyz⟩ := h2 k hkb
+  rw [hy] at hy'; cases hy'
+  exact ⟨x, z, hx, hz, Atom.pyEq_trans _ _ _ hxy hyz⟩
+
+/-- with both inclusions the direction of the value comparison does not matter -/
+theorem dictLe_flip (a b : Dict Atom) (h1 : dictLe a b = true) (h2 : dictLe b a = true) :
+    pyEqDict b a = true := by
+  simp [pyEqDict, h1, h2]
+
+theorem pyEqDict_refl (a : Dict Atom) : pyEqDict a a = true := by simp [pyEqDict, dictLe_refl]
+
+theorem pyEqDict_symm (a b : Dict Atom) : pyEqDict a b = pyEqDict b a := by
+  simp [pyEqDict, Bool.and_comm]
+
+theorem pyEqDict_trans (a b c : Dict Atom) (h1 : pyEqDict a b = true) (h2 : pyEqDict b c = true) :
+    pyEqDict a c = true := by
+  simp only [pyEqDict, Bool.and_eq_true] at h1 h2 ⊢
+  exact ⟨dictLe_trans a b c h1.1 h2.1, dictLe_trans c b a h2.2 h1.2⟩
+
 theorem Val.pyEq_refl (v : Val) : v.pyEq v = true := by
-  cases v <;> simp [Val.pyEq, Atom.pyEq_refl, pyEqList_refl]
+  cases v <;> simp [Val.pyEq, Atom.pyEq_refl, pyEqList_refl, pyEqElems_refl, pyEqDict_refl]
 
 theorem Val.pyEq_symm (a b : Val) : a.pyEq b = b.pyEq a := by
-  cases a <;> cases b <;> simp [Val.pyEq, Atom.pyEq_symm, pyEqList_symm]
+  cases a <;> cases b <;> simp [Val.pyEq, Atom.pyEq_symm, pyEqList_symm, pyEqElems_symm, pyEqDict_symm]
 
 theorem Val.pyEq_trans (a b c : Val) (h1 : a.pyEq b = true) (h2 : b.pyEq c = true) : a.pyEq c = true := by
   cases a <;> cases b <;> cases c <;> simp [Val.pyEq] at h1 h2 ⊢
   · exact Atom.pyEq_trans _ _ _ h1 h2
   · exact pyEqList_trans _ _ _ h1 h2
+  · exact pyEqElems_trans _ _ _ h1 h2
+  · exact pyEqDict_trans _ _ _ h1 h2
 
 theorem cellNe_self (a : Option Val) : cellNe a a = false := by
   cases a <;> simp [cellNe, Val.pyEq_refl]
